@@ -36,10 +36,10 @@ struct ConstraintMonitor {
       bloc::Symbol& s = c.getSymbol((unsigned)i); auto key = std::make_pair((const void*)&c, (unsigned)i);
       if (!s.safety()) { held.erase(key); continue; }
       bloc::Value& v = c.loadVariable((unsigned)i).deref_value();
-      int major = (int)v.type().major(); if (major == (int)bloc::Type::NO_TYPE) continue;
+      int major = (int)v.type().major() * 1000 + (int)v.type().level(); if (v.type().major() == bloc::Type::NO_TYPE) continue;   // major type and table dimension
       auto it = held.find(key);
       if (it == held.end()) held[key] = major;
-      else if (it->second != major && violation.empty()) violation = s.name() + ": constrained while holding " + std::string(bloc::Type::typeName((bloc::Type::TypeMajor)it->second)) + " but now holds " + type_str(v.type());
+      else if (it->second != major && violation.empty()) violation = s.name() + ": constrained while holding " + std::string(bloc::Type::typeName((bloc::Type::TypeMajor)(it->second / 1000))) + " of dimension " + std::to_string(it->second % 1000) + " but now holds " + type_str(v.type());
     }
   }
 };
